@@ -361,12 +361,12 @@ Fixpoint slex_f (fuel : nat) (ls : slex) (src : list ch) (lineno : Z) : res slex
                        let '(s7, ln7) := skip_space (skipn 4 s6) ln6 in
                        if negb (eq_char s7 123) then Unsupported U_SYNTAX else
                        let '(else_s, s8, ln8) := LexCore.get_token_nest s7 ln7 123 125 in
-                       do el <- slex_f f ls1 else_s ln6;       (* ... the ELSE block on the line of the word ELSE *)
+                       do el <- slex_f f ls1 else_s ln7;       (* ... the ELSE block on the line of its '{' too *)
                        let '(else_tok, ls2) := el in
                        loop n' ls2 s8 ln8 harmony (acc ++ [SIf cond then_tok else_tok lineno])
                      else loop n' ls1 s6 ln6 harmony (acc ++ [SIf cond then_tok [] lineno])
                    else if list_eqb ttype (zs "While") then
-                     (* read_while: condition and body are lexed with the line of the word WHILE *)
+                     (* read_while: the condition is lexed with the line of the word WHILE, the body with the line of its '{' *)
                      let '(s2, ln2) := skip_space s1 ln in
                      if negb (eq_char s2 40) then Unsupported U_SYNTAX else
                      let '(cond_s, s3, ln3) := LexCore.get_token_nest s2 ln2 40 41 in
@@ -374,7 +374,7 @@ Fixpoint slex_f (fuel : nat) (ls : slex) (src : list ch) (lineno : Z) : res slex
                      do cond <- cond_of cl;
                      let '(s4, ln4) := skip_space s3 ln3 in
                      let '(body_s, s5, ln5) := LexCore.get_token_nest s4 ln4 123 125 in
-                     do bd <- slex_f f ls body_s lineno;
+                     do bd <- slex_f f ls body_s ln4;
                      let '(body_tok, ls1) := bd in
                      loop n' ls1 s5 ln5 harmony (acc ++ [SWhile cond body_tok lineno])
                    else if list_eqb ttype (zs "For") then
@@ -398,7 +398,7 @@ Fixpoint slex_f (fuel : nat) (ls : slex) (src : list ch) (lineno : Z) : res slex
                      do cond <- cond_of cl;
                      do ic <- slex_f f ls1 inc_s lineno;
                      let '(inc_tok, ls2) := ic in
-                     do bd <- slex_f f ls2 body_s lineno;
+                     do bd <- slex_f f ls2 body_s ln6;     (* the body starts on the line of its '{' *)
                      let '(body_tok, ls3) := bd in
                      loop n' ls3 s7 ln7 harmony (acc ++ [SFor init_tok cond inc_tok body_tok lineno])
                    else if list_eqb ttype (zs "DefUserFunction") then
@@ -639,7 +639,10 @@ Section Step.
                 finish_call fd vs st1
             end
         end
-    | Expr.TValueInc x d => do st1 <- value_inc st x d; Ok (None, st1)
+    | Expr.TValueInc _ d =>
+        (* read_value_word stores the name in data[0], the ValueInc arm reads value_s (absent): the variable with the
+           EMPTY name is incremented, nothing is pushed *)
+        do st1 <- value_inc st [] d; Ok (None, st1)
     | Expr.TMakeArray items =>
         (* exec_value on each item *)
         let tmp := ss_needs st in
